@@ -438,6 +438,12 @@ fn check_type_relation<T: TypeLookup>(
             })
         }
 
+        // Partial vs concrete tuple: never assignable (the partial also holds wider tuples), but
+        // the two overlap exactly when the tuple overlaps the partial.
+        (Type::Partial { .. }, Type::Tuple(_)) if mode == UnionMode::Any => {
+            check_type_relation(pattern_id, self_id, lookup, mode, assumptions, type_stack)
+        }
+
         // Partial vs partial - check structural compatibility
         (
             Type::Partial {
